@@ -6,7 +6,10 @@ THEOREMS = {
     'C04': ['Cctz.C04.nSec_valid', 'Cctz.C04.nSec_exact', 'Cctz.C04.nSec_unique', 'Cctz.C04.align_spec',
             'Cctz.C04.civilNew_spec', 'Cctz.C04.nSec_no_overflow'],
     'C05': ['Cctz.C05.add_exact', 'Cctz.C05.sub_exact', 'Cctz.C05.difference_exact', 'Cctz.C05.inverse', 'Cctz.C05.lt_iff',
-            'Cctz.C05.lt_iff_difference', 'Cctz.C05.add_no_overflow', 'Cctz.C05.sub_no_overflow', 'Cctz.C05.difference_no_overflow'],
+            'Cctz.C05.lt_iff_difference', 'Cctz.C05.add_no_overflow', 'Cctz.C05.sub_no_overflow', 'Cctz.C05.difference_no_overflow',
+            'Cctz.C05Algebra.add_add', 'Cctz.C05Algebra.add_sub_cancel', 'Cctz.C05Algebra.sub_eq_add_neg', 'Cctz.C05Algebra.add_zero',
+            'Cctz.C05Algebra.difference_of_adds', 'Cctz.C05Algebra.difference_antisymm', 'Cctz.C05Algebra.difference_chain',
+            'Cctz.C05Algebra.add_monotone'],
     'C17': ['Cctz.C17.getWeekday_spec', 'Cctz.C17.getYearday_spec', 'Cctz.C17.nextWeekday_spec',
             'Cctz.C17.prevWeekday_spec', 'Cctz.C17.weekday_spec_sanity',
             'Cctz.C17Idiom.weekday_of_result', 'Cctz.C17Idiom.onOrAfter', 'Cctz.C17Idiom.onOrBefore',
@@ -145,6 +148,16 @@ def gen_arith(chk, scale):
                 k = rng.choice([1, -1]) * rng.choice([1, 1, 2, 3, 7]) * 146097 * per_day + rng.choice([0, 1, -1, per_day, -per_day, rng.randrange(-3 * per_day, 3 * per_day + 1)])
         k = min(max(k, I64MIN), I64MAX)
         ops.append((rng.choice(['add', 'sub']), tag, a, k))
+    for _ in range(n // 5):
+        # chained steps (a + n) + m, (a + n) - n, (a + n) - (a + m): magnitudes, limits, and pairs that nearly cancel
+        tag = rng.choice(C.TAGS)
+        a = C.align(tag, C.valid_fields(rng))
+        k1 = rng.choice(C.MAGS + big[4:]) * rng.choice([1, -1]) + rng.randrange(-2, 3)
+        r = rng.random()
+        if r < 0.4: k2 = -k1 + rng.randrange(-3, 4)
+        elif r < 0.7: k2 = rng.choice(C.MAGS) * rng.choice([1, -1]) + rng.randrange(-2, 3)
+        else: k2 = rng.randrange(-100000, 100000)
+        ops.append(('chain', tag, a, (min(max(k1, I64MIN), I64MAX), min(max(k2, I64MIN), I64MAX))))
     for _ in range(n // 2):
         tag = rng.choice(C.TAGS)
         a = C.align(tag, C.valid_fields(rng))
@@ -173,7 +186,7 @@ def gen_arith(chk, scale):
 
 
 def run_C05(chk):
-    chk.prepare_model('Cctz.Properties.C05', THEOREMS['C05'])
+    chk.prepare_model(['Cctz.Properties.C05', 'Cctz.Properties.C05Algebra'], THEOREMS['C05'])
     exe = chk.harness('san')
     scale = chk.tier if not (chk.broken or chk.degraded) else 'thorough'
     if exe is None or not getattr(chk, 'driver_ok', False):
@@ -183,6 +196,7 @@ def run_C05(chk):
     for kind, tag, a, x in ops:
         if kind in ('add', 'sub'): lines.append('%s %s %s %d' % (kind, tag, C.fmt(a), x))
         elif kind == 'diff': lines.append('diff %s %s %s' % (tag, C.fmt(a), C.fmt(x)))
+        elif kind == 'chain': lines.append('chain %s %s %d %d' % (tag, C.fmt(a), x[0], x[1]))
         else: lines.append('cmp %s %s %s %s' % (tag[0], tag[1], C.fmt(a), C.fmt(x)))
     mo, io, mism = correspond(chk, lines, exe, 'arith')
     nontriv = set()
@@ -204,6 +218,18 @@ def run_C05(chk):
                 nontriv.add((kind, tag, a, x))
                 if C.in64(n) and len(inverse) < (60000 if scale == 'quick' else 10**6):
                     inverse.append(('diff %s %s %s' % (tag, C.fmt(got), C.fmt(a)), n, lines[i]))
+        elif kind == 'chain':
+            u = C.unit_num(tag, a); n1, n2 = x
+            mids = [C.of_unit(tag, u + n1), C.of_unit(tag, u + n2), C.of_unit(tag, u + n1 + n2)]
+            rep = all(C.in64(f[0]) for f in mids) and C.in64(n1 - n2) and C.in64(-n1)
+            chk.count('chain:%s' % ('representable' if rep else 'unrepresentable'))
+            if not rep: continue
+            want = '%s | %s | %d' % (C.fmt(mids[2]), C.fmt(a), n1 - n2)
+            if out != want:
+                chk.report('chained steps on civil_%s(%s) with n=%d, m=%d: (a+n)+m | (a+n)-n | (a+n)-(a+m) = %s, exact result is %s' % (tag, C.fmt(a), n1, n2, out, want),
+                           {'op': lines[i], 'implementation': out, 'model': mo[i], 'specification': want}, sig='chain %s' % site_sig(out))
+            else:
+                nontriv.add((kind, tag, a, x))
         elif kind == 'diff':
             want = C.unit_num(tag, a) - C.unit_num(tag, x)
             rep = C.in64(want)
@@ -241,7 +267,8 @@ def run_C05(chk):
     chk.cov['rule'] = ('ops add/sub/diff/cmp on valid aligned civil times of all six alignments: n from the magnitude panel, the int64 limits, '
                        'values aimed at results in the extreme years, random 64-bit; pairs with chosen difference; each compared model vs implementation '
                        '(value and UB flag) and, when the exact result is representable, against the Python calendar oracle; then the inverse laws '
-                       '(a+n)-a==n and b+(a-b)==a are evaluated on the implementation; non-trivial = distinct ops with representable exact result that matched')
+                       '(a+n)-a==n and b+(a-b)==a are evaluated on the implementation; chained steps (a+n)+m, (a+n)-n, (a+n)-(a+m) in one op '
+                       'against a+(n+m), a, n-m (the C05Algebra theorems); non-trivial = distinct ops with representable exact result that matched')
     for i in (0, len(lines) // 2, len(lines) - 1):
         chk.sample({'op': lines[i], 'model': mo[i], 'implementation': io[i]})
     return chk.finish()
